@@ -334,14 +334,38 @@ Section Inv.
       try reflexivity.
   Qed.
 
+  (* the bulk entry points: loops over the single-object operations *)
+  Lemma add_many_inv os : forall t, Inv t -> Inv (fst (add_many kinds t os)).
+  Proof.
+    induction os as [|o r IH]; intros t I; cbn [add_many]; [exact I|].
+    pose proof (add_inv t o I) as I1. destruct (add kinds t o) as [t1 x]. cbn [fst] in I1.
+    destruct x; [now apply IH|exact I1|exact I1].
+  Qed.
+
+  Lemma remove_many_inv os : forall t, Inv t -> Inv (fst (remove_many t os)).
+  Proof.
+    induction os as [|o r IH]; intros t I; cbn [remove_many]; [exact I|].
+    apply IH. now apply remove_inv.
+  Qed.
+
+  Lemma update_many_inv os : forall t, Inv t -> Inv (fst (update_many kinds t os)).
+  Proof.
+    induction os as [|o r IH]; intros t I; cbn [update_many]; [exact I|].
+    pose proof (update_inv t o I) as I1. destruct (update kinds t o) as [t1 x]. cbn [fst] in I1.
+    destruct x; [now apply IH|exact I1|exact I1].
+  Qed.
+
   Lemma step_inv t p : Inv t -> Inv (fst (step kinds t p)).
   Proof.
-    intros I. destruct p as [o|o|o| |o i v]; cbn [step].
+    intros I. destruct p as [o|o|o| |o i v|os|os|os]; cbn [step].
     - now apply add_inv.
     - now apply remove_inv.
     - now apply update_inv.
     - apply clear_inv.
     - cbn [fst]. destruct I as [I1 I2 I3 I4]. constructor; cbn [objs refs idxs iattrs]; assumption.
+    - now apply add_many_inv.
+    - now apply remove_many_inv.
+    - now apply update_many_inv.
   Qed.
 
   Lemma run_fst t p r : fst (run kinds t (p :: r)) = fst (run kinds (fst (step kinds t p)) r).
@@ -427,6 +451,55 @@ Section Inv.
     - intros i k o'. rewrite cnt_rm_refs, Hc. destruct (Z.eqb o o'); lia.
   Qed.
 
-  (* rejected operations do not disturb the invariant either; a unique index never holds two
-     objects under one key *)
+  (* ---------------------------------------------------------------- rejected bulk insert *)
+  (* A bulk insert that is rejected has PREFIX semantics: the table is exactly the table after the
+     (accepted) insertion of the elements before the offending one; the offending element and everything
+     behind it left no trace. *)
+  Theorem rejected_batch_is_prefix os : forall t t',
+    Inv t -> add_many kinds t os = (t', RRejected) ->
+    exists pre o post t1,
+      os = pre ++ o :: post /\ add_many kinds t pre = (t1, ROk) /\
+      (exists t1', add kinds t1 o = (t1', RRejected)) /\ same_table t' t1.
+  Proof.
+    induction os as [|o r IH]; intros t t' I H; cbn [add_many] in H; [discriminate|].
+    pose proof (add_inv t o I) as I1. destruct (add kinds t o) as [t1 x] eqn:A. cbn [fst] in I1.
+    destruct x.
+    - destruct (IH t1 t' I1 H) as (pre & o' & post & t2 & -> & Hp & Hr & Hs).
+      exists (o :: pre), o', post, t2. cbn [app add_many]. rewrite A.
+      split; [reflexivity|split; [exact Hp|split; [exact Hr|exact Hs]]].
+    - injection H as <-. exists [], o, r, t. cbn [app add_many].
+      split; [reflexivity|split; [reflexivity|split; [exists t1; exact A|]]].
+      exact (rejected_insert_noop t o t1 I A).
+    - discriminate.
+  Qed.
+
+  (* an accepted bulk operation is the sequence of the single operations *)
+  Lemma add_many_ok_is_run os : forall t t',
+    add_many kinds t os = (t', ROk) -> fst (run kinds t (map Add os)) = t'.
+  Proof.
+    induction os as [|o r IH]; intros t t' H.
+    - cbn in H. injection H as H. subst t'. reflexivity.
+    - cbn [add_many] in H. cbn [map]. rewrite run_fst. cbn [step].
+      destruct (add kinds t o) as [t1 x]. cbn [fst].
+      destruct x.
+      + now apply IH.
+      + injection H as _ H. discriminate.
+      + injection H as _ H. discriminate.
+  Qed.
+
+  Lemma remove_many_is_run os : forall t,
+    fst (run kinds t (map Remove os)) = fst (remove_many t os).
+  Proof.
+    induction os as [|o r IH]; intros t; cbn [remove_many map]; [reflexivity|].
+    rewrite run_fst. cbn [step]. apply IH.
+  Qed.
+
+  (* a bulk insert never reports "object not known" *)
+  Lemma add_many_not_valueerror os : forall t t', add_many kinds t os <> (t', RValueError).
+  Proof.
+    induction os as [|o r IH]; intros t t' H; cbn [add_many] in H; [discriminate|].
+    destruct (add kinds t o) as [t1 x] eqn:A. destruct x; [now apply IH in H|discriminate|].
+    unfold add in A. destruct (mem o (objs t)); [discriminate|]. unfold mk_indices in A.
+    destruct (mk_loop _ _ _ _ _ _) as [[ixs acc] rej]. destruct rej; discriminate.
+  Qed.
 End Inv.
